@@ -198,7 +198,7 @@ func (s *Scanner) scanComment() string {
 		goto exit
 	}
 	/*-style comment */
-	if s.ch == '*' {
+	if s.ch == '*' && s.src[offs] == '/' {
 		s.next()
 		for s.ch >= 0 {
 			ch := s.ch
